@@ -156,6 +156,16 @@ impl Number {
             if exp < 0 && (self.value == Numeric::zero() || self.value == Numeric::Float(0.0)) {
                 return Err("Division by zero".to_string());
             }
+            // The exponents of the base units have to stay within i32,
+            // prefix selection relies on it.
+            let fits = self.unit.iter().all(|(_, &power)| {
+                power
+                    .checked_mul(exp as i64)
+                    .map_or(false, |power| power.abs() <= i32::MAX as i64)
+            });
+            if !fits {
+                return Err("Exponent is too large".to_string());
+            }
             Ok(self.powi(exp))
         } else if num == one {
             let exp: Option<i64> = den.as_int();
@@ -319,6 +329,13 @@ impl Number {
         let unit = self.pretty_unit(context);
         if let Some(orig) = unit.as_single() {
             use std::collections::HashSet;
+            // `m^2147483647 m`: no prefix is going to make that any prettier
+            if orig.1.abs() > i32::MAX as i64 {
+                return Number {
+                    value: self.value.clone(),
+                    unit,
+                };
+            }
             let prefixes = [
                 "milli", "micro", "nano", "pico", "femto", "atto", "zepto", "yocto", "kilo",
                 "mega", "giga", "tera", "peta", "exa", "zetta", "yotta",
